@@ -250,6 +250,21 @@ func (m *machine) add(t *rapid.T, how string) {
 		s := m.nodes[rapid.IntRange(0, len(m.nodes)-1).Draw(t, "sibling")]
 		n.parent = s.parent
 		src = n.name + " := " + s.name + ".bro(" + m.literal(t, n) + ")"
+	case "merge":
+		// a new root object made by unpacking two existing objects; the operands must stay what they were
+		a := m.nodes[rapid.IntRange(0, len(m.nodes)-1).Draw(t, "first")]
+		b := m.nodes[rapid.IntRange(0, len(m.nodes)-1).Draw(t, "second")]
+		for k, v := range a.own {
+			n.own[k] = v
+		}
+		for k, v := range b.own {
+			if _, ok := n.own[k]; !ok {
+				n.own[k] = v
+			}
+		}
+		n.id = a.id
+		n.twin, a.twin, b.twin = true, true, true
+		src = n.name + " := {**" + a.name + ", **" + b.name + "}"
 	case "bearFrom", "broFrom":
 		// the source of the new object's own properties is an existing object: it must stay what it was
 		p := m.nodes[rapid.IntRange(0, len(m.nodes)-1).Draw(t, "parent")]
@@ -444,6 +459,7 @@ func TestForest(t *testing.T) {
 			"bear2":    func(t *rapid.T) { m.add(t, "bear") },
 			"bro":      func(t *rapid.T) { m.add(t, "bro") },
 			"bearFrom": func(t *rapid.T) { m.add(t, "bearFrom") },
+			"merge":    func(t *rapid.T) { m.add(t, "merge") },
 			"broFrom":  func(t *rapid.T) { m.add(t, "broFrom") },
 			"query":    func(t *rapid.T) { m.query(t) },
 			"query2":   func(t *rapid.T) { m.query(t) },
